@@ -26,6 +26,10 @@ ASSUMPTIONS = [
 SINGLE_OUTCOME_OK = False
 
 VALUES = [None, {"count": 2}, {"count": 3}]
+SPACINGS = {
+    "long_short_x": [[0, 6, 7, 13, 14], [0, 1, 2, 3, 4], [0, 1, 2, 3, 4]],
+    "short_long_y": [[0, 1, 2, 3, 4], [0, 0.4, 7, 7.5, 15], [0, 1, 2, 3, 4]],
+}
 COMPUTED = {"start_size": 0.3, "c2c_expansion": 1.0}  # 1/0.3 = 3.33 -> 4 cells
 RESIZE = {"start_size": 0.34, "c2c_expansion": 1.0}  # 1/0.34 = 2.94 -> 3 cells; on an edge of length 2: 5.88 -> 6 cells
 
@@ -124,6 +128,11 @@ def cases(tier, seed):
     for c in out[1 :: (5 if q else 3)]:
         if 2 in c["placement"]:
             extra.append(dict(c, resize=c["placement"].index(2)))
+    # blocks of very different sizes (counts only): a long block followed by a short one and the other way round,
+    # along x and along y
+    for c in out[4 :: (15 if q else 3)]:
+        for sp in SPACINGS:
+            extra.append(dict(c, spacing=sp))
     out += extra
     out.sort(key=lambda c: (len(c["cells"]), sum(1 for x in c["placement"] if x)))
     return out
@@ -151,6 +160,8 @@ def script_of(case):
                 kw = {"length_ratio": 0.6, "count": 2}
             chops.append([idx // 3, idx % 3, kw])
     script = {"cells": cells, "numbering": case["numbering"], "chops": chops, "order": list(range(len(cells)))}
+    if case.get("spacing"):
+        script["geometry"] = {"spacing": SPACINGS[case["spacing"]]}
     if case.get("complete"):
         fam = gradlab.Families(script)
         chopped = {fam.find((b, g)) for b, g, _ in chops}
@@ -198,6 +209,9 @@ def judge(case, coords, verdict, fam_counts, fam, kind, payload, mesh, tag="", s
             # every direction carries its family's count
             sc = scale or (1, 1, 1)
             pos = [tuple(int(round(x / sc[i])) for i, x in enumerate(v["pos"])) for v in d["vertices"]]
+            if case.get("spacing"):
+                table = SPACINGS[case["spacing"]]
+                pos = [tuple(min(range(len(table[i])), key=lambda k: abs(table[i][k] - x)) for i, x in enumerate(v["pos"])) for v in d["vertices"]]
             cells = [tuple(c) for c in case["cells"]]
             for blk in d["blocks"]:
                 ids = [pos[i] for i in blk["v"]]
@@ -243,7 +257,7 @@ def run_case(case):
     kind, payload = gradlab.write_and_observe(mesh)
     coords = {k: case[k] for k in ("cells", "numbering", "placement")}
     coords["complete"] = bool(case.get("complete"))
-    for k in ("computed", "multi", "multi_eq", "resize"):
+    for k in ("computed", "multi", "multi_eq", "resize", "spacing"):
         if k in case:
             coords[k] = case[k]
     coords["verdict"] = verdict
